@@ -47,6 +47,12 @@ CONFIGS = [
 DENSITY = {'default_solid_density': 2.5, 'default_enzyme_density': 0.4}
 
 
+def shard_config(shard, tier):
+    """the density-variant shards of the thorough tier generate (state-aware) under the same default densities as
+    their workers, so that what is generated as feasible is feasible there"""
+    return dict(DENSITY) if tier == 'thorough' and shard % 2 == 1 else None
+
+
 class Worker:
     def __init__(self, name, overrides):
         self.name, self.overrides = name, overrides
